@@ -119,6 +119,15 @@ CHECKS = {
         note="Faults are exceptions raised at the fault point (no process kill, no torn writes); temp dir and debug logs are redirected outside the project root; post-processing only as an injected stage.",
         design="§5 C10",
     ),
+    "C11": dict(
+        category="exploration",
+        technique="generated histories (2..7 generate_client steps over 3 client packages x 7 documents with different error-status sets x force on/off; shared-core depth 1..4 and client depth 1..3 per history), invariant checked after EVERY step in a fresh child interpreter: every client generated so far and the shared core import completely",
+        text="480 histories per quick run (~2 000 steps, each followed by a fresh-interpreter import of all clients). A step that makes "
+             "another client's import fail (typically a status-specific exception class vanishing from the shared core) is a violation; "
+             "histories shrink step-wise. One root cause found and repaired (registry bypassed for cores nested >= 3 packages deep).",
+        note="Histories are lists of steps drawn by Hypothesis (equivalent to a one-rule state machine) and minimised by ddmin; 7 fixed documents; a raising step is an outcome.",
+        design="§5 C11",
+    ),
     "C12": dict(
         category="exploration",
         technique="Hypothesis-constructed specs x core layouts x history (fresh project / shared core holding drifted runtime files) through generate_client; AST scan of every import node of every emitted file (module level, nested, TYPE_CHECKING) against an allow-list; fresh child interpreter with the generator blocked at the meta path running an exercise script (round-trips, get_mapping(), every client method); byte comparison of the copied runtime files",
